@@ -211,14 +211,27 @@ func c19Build(seed uint64, cell c19Cell) *c19Case {
 		// n pods under one controller with equal labels; the injected one differs
 		labels := map[string]string{"app": "a", "tier": "b"}
 		okind := "ReplicaSet"
-		if strings.HasSuffix(cell.detail, "+refs") {
+		detail := cell.detail
+		if strings.HasSuffix(detail, "+refs") {
 			okind = "ReplicaSet+refs" // every pod lists two non-controller references before the controller's
+			detail = strings.TrimSuffix(detail, "+refs")
+		}
+		owner := "cfl-owner"
+		if strings.HasSuffix(detail, "+hash") {
+			// the way pods of a Deployment look in a dump of a live cluster: the ReplicaSet is named after the
+			// template hash and every pod carries it as a label
+			detail = strings.TrimSuffix(detail, "+hash")
+			owner = "cfl-owner-6d4cf56db6"
+			labels["pod-template-hash"] = "6d4cf56db6"
 		}
 		for k := 0; k < cell.n; k++ {
-			group = append(group, podDoc("alpha", fmt.Sprintf("cfl-pod-%d", k), labels, nil, "cfl-owner", okind, r.chance(1, 2)))
+			group = append(group, podDoc("alpha", fmt.Sprintf("cfl-pod-%d", k), labels, nil, owner, okind, r.chance(1, 2)))
 		}
-		bad := map[string]string{"app": "a", "tier": "b"}
-		switch strings.TrimSuffix(cell.detail, "+refs") {
+		bad := map[string]string{}
+		for k, v := range labels {
+			bad[k] = v
+		}
+		switch detail {
 		case "value":
 			bad["tier"] = "c"
 		case "missing":
@@ -226,7 +239,7 @@ func c19Build(seed uint64, cell c19Cell) *c19Case {
 		default:
 			bad["extra"] = "x"
 		}
-		injected = podDoc("alpha", "cfl-pod-x", bad, nil, "cfl-owner", okind, r.chance(1, 2))
+		injected = podDoc("alpha", "cfl-pod-x", bad, nil, owner, okind, r.chance(1, 2))
 		c.tokens = []string{"cfl-owner"}
 		others = append(others, anps...)
 		others = append(others, nps...)
@@ -481,7 +494,7 @@ func c19Cells(tier string, seed uint64) (cells []c19Cell, exhaustiveUpTo int) {
 		add(c19Cell{kind: "banpName", n: 0, i: 0, j: -1, order: fmt.Sprint("v", k)})
 	}
 	for n := 1; n <= 5; n++ {
-		for _, d := range []string{"value", "missing", "extra", "value+refs", "extra+refs"} {
+		for _, d := range []string{"value", "missing", "extra", "value+refs", "extra+refs", "value+hash", "extra+hash", "missing+hash+refs"} {
 			for j := 0; j <= n; j++ {
 				add(c19Cell{kind: "podLabels", n: n, i: j, j: -1, order: "sorted", detail: d})
 			}
